@@ -1305,6 +1305,86 @@ example : ∃ L1, shiftMax X.ops (topK X.ops 1 (mkTokens [X.pinf, .fin 0])) = .o
     ⟨.fin 1, 1, .fin 1, .fin 0, false⟩ (.fin 0) [X.pinf, .fin 0] 0 (by decide) (by rfl)
   exact ⟨L1, h⟩
 
+/-! ### the grammar retry for IEEE-like carriers -/
+
+/-- NaN-freeness is preserved by the grammar mask (a logic fact: a masked entry is the old logit or `-Inf`) -/
+theorem noNaN_maskLogits {o : Ops α} (hneg : o.isNaN o.negInf = false) (acc : List Nat) (logits : List α)
+    (hn : noNaN o logits = true) : noNaN o (maskLogits o acc logits) = true := by
+  unfold noNaN
+  rw [List.all_eq_true]
+  intro v hv
+  obtain ⟨j, hj, hjv⟩ := List.mem_iff_getElem.1 hv
+  have hget : (maskLogits o acc logits)[j]? = some v := by
+    rw [List.getElem?_eq_getElem hj, hjv]
+  obtain ⟨w, hw, hvw⟩ := maskLogits_get o acc logits j v hget
+  rw [hvw]
+  split
+  · simpa using noNaN_mem hn w (List.mem_of_getElem? hw)
+  · simpa using hneg
+
+/-- **grammar, temperature 0, IEEE-like carrier**: the retry returns an arg-max of the masked logits,
+    accepted by the grammar as soon as some masked logit is above `-Inf` -/
+theorem grammar_retry_greedy_on {o : Ops α} (h : OrdLawsOn o) (fix : Bool) (P : Params α) (r : α)
+    (logits : List α) (acc : List Nat) (id : Nat) (ht : o.beq P.temp o.zero = true)
+    (hn : noNaN o logits = true)
+    (hS : Sample o fix P r (maskLogits o acc logits) = .ok id)
+    (hsome : ∃ w ∈ maskLogits o acc logits, o.lt o.negInf w = true) :
+    acc.contains id = true ∧
+    ∃ v, (maskLogits o acc logits)[id]? = some v ∧ ∀ w ∈ maskLogits o acc logits, o.lt v w = false := by
+  have hnm := noNaN_maskLogits h.negInf acc logits hn
+  obtain ⟨v, hv, hmax⟩ := greedy_argmax_on h fix P r _ id ht hnm hS
+  refine ⟨?_, v, hv, hmax⟩
+  obtain ⟨w0, _, hvw⟩ := maskLogits_get o acc logits id v hv
+  cases hc : acc.contains id with
+  | true => rfl
+  | false =>
+    rw [hc] at hvw
+    simp only [Bool.false_eq_true, if_false] at hvw
+    obtain ⟨w, hw, hlt⟩ := hsome
+    have := hmax w hw
+    rw [hvw, hlt] at this; cases this
+
+/-- **grammar, temperature > 0, IEEE-like carrier, the code in /repo**: under the run's guard and
+    contracts on the masked logits the retry result is accepted by the grammar, indexes an original
+    logit that is not `-Inf`, lies in the filter set of the masked logits, and fewer than `k` masked
+    logits exceed it -/
+theorem grammar_retry_admissible_fixed_on {o : Ops α} (h : OrdLawsOn o) (ha : ArithLawsOn o) (hb : BeqLawOn o)
+    (hrefl : o.beq o.negInf o.negInf = true) (P : Params α) (r : α)
+    (logits : List α) (acc : List Nat) (id : Nat) (ht : o.beq P.temp o.zero = false)
+    (hn : noNaN o logits = true)
+    (hS : Sample o true P r (maskLogits o acc logits) = .ok id) :
+    (∃ v, (maskLogits o acc logits)[id]? = some v ∧
+      ((mkTokens (maskLogits o acc logits)).filter (fun x => o.lt v x.val)).length <
+        (if P.topK ≥ ((maskLogits o acc logits).length : Int) ∨ P.topK ≤ 0 then (maskLogits o acc logits).length
+         else P.topK.toNat)) ∧
+    ∃ L1, shiftMax o (topK o P.topK (mkTokens (maskLogits o acc logits))) = .ok L1 ∧
+    (runGood o P r L1 = true → (∀ v ∈ L1.map (·.val), o.isNaN v = false) →
+     guardOK o (scaledOf o P L1) = true →
+     scaleOK o ((topK o P.topK (mkTokens (maskLogits o acc logits))).map (·.val)) (L1.map (·.val)) = true →
+     scaleOK o (L1.map (·.val)) (scaledOf o P L1) = true →
+     softmaxOK o (scaledOf o P L1) (softmaxVals o (scaledOf o P L1)) = true →
+     acc.contains id = true ∧
+     (∃ w, logits[id]? = some w ∧ o.beq w o.negInf = false) ∧
+     ∃ f, minP o P.minP (topP o P.topP (probsOf o P L1)) = .ok f ∧ ∃ x ∈ f, x.id = id) := by
+  have hnm := noNaN_maskLogits h.negInf acc logits hn
+  refine ⟨sample_in_topk_on h true P r _ id ht hnm hS, ?_⟩
+  obtain ⟨L1, hs, hrest⟩ := sample_admissible_fixed_on h ha hb P r _ id ht hS
+  refine ⟨L1, hs, ?_⟩
+  intro hrg hL1 hg hsh hsc hsm
+  obtain ⟨⟨v, hv, hne⟩, f, hf, _, x, hx, hxid⟩ := hrest hrg hL1 hg hsh hsc hsm
+  have hacc := masked_not_neginf_accepted o hrefl acc logits id v hv hne
+  obtain ⟨w, hw, hvw⟩ := maskLogits_get o acc logits id v hv
+  rw [hacc] at hvw
+  simp only [if_true] at hvw
+  exact ⟨hacc, ⟨w, hw, by rw [← hvw]; exact hne⟩, f, hf, x, hx, hxid⟩
+
+/-- instantiation on the carrier with NaN: the grammar accepts only token 1; temperature 0 -/
+example : ([1] : List Nat).contains 1 = true ∧
+    ∃ v, (maskLogits X.ops [1] [X.fin 5, .fin 2, .pinf])[1]? = some v ∧
+      ∀ w ∈ maskLogits X.ops [1] [X.fin 5, .fin 2, .pinf], X.ops.lt v w = false :=
+  grammar_retry_greedy_on xLawsOn true ⟨.fin 0, 40, .fin 1, .fin 0, true⟩ (.fin 0) [X.fin 5, .fin 2, .pinf] [1] 1
+    (by decide) (by decide) (by rfl) ⟨.fin 2, by decide, by decide⟩
+
 /-! ### round 7 (after review): an independent specification of top-p -/
 
 /-- the mass of the first `j` entries, accumulated the way the code does (left to right from 0) -/
